@@ -73,6 +73,9 @@ func (v *Val) MarshalJSON() ([]byte, error) {
 		if v.NilC && len(l) == 0 {
 			return json.Marshal(map[string]any{"l": l, "nilc": true, "lt": v.LT})
 		}
+		if v.LT != "" {
+			return json.Marshal(map[string]any{"l": l, "lt": v.LT})
+		}
 		return json.Marshal(map[string]any{"l": l})
 	case "m":
 		m := v.M
@@ -264,6 +267,12 @@ func typedSlice(lt string, elems []any) (any, bool) {
 		et = reflect.TypeOf(float64(0))
 	case "bool":
 		et = reflect.TypeOf(false)
+	case "named":
+		// all elements are values of one defined scalar type
+		if len(elems) == 0 || elems[0] == nil {
+			return nil, false
+		}
+		et = reflect.TypeOf(elems[0])
 	default:
 		return nil, false
 	}
@@ -399,7 +408,13 @@ func Enc(x any) *Val {
 		return out
 	case reflect.Pointer:
 		if rt == regexpPtrType && !rv.IsNil() {
-			return Regex(x.(*regexp.Regexp).String())
+			re := x.(*regexp.Regexp)
+			if f := reflect.ValueOf(re).Elem().FieldByName("longest"); f.IsValid() && f.Kind() == reflect.Bool && f.Bool() {
+				// a compiled expression that somebody switched to leftmost-longest matching is not the
+				// expression its text denotes (the library never makes one)
+				return Regex(re.String() + " (switched to leftmost-longest matching)")
+			}
+			return Regex(re.String())
 		}
 	}
 	return Opaque(0)
